@@ -334,6 +334,44 @@ def check_default_device(wd, sieve, stats):
                            'summary': f'flipjump.run without io_device, history {list(hist)}: printed {got} instead of {exp}'})
 
 
+def check_partial_output(wd, sieve, stats):
+    """a program whose output ends in the middle of a byte ('OK' and three more bits): every route runs it the same way - the
+    command prints OK, the API run collects b'OK', and the output-testing API calls accept b'OK' as its output."""
+    import flipjump
+    from flipjump.fjm.fjm_consts import FJMVersion
+    from flipjump.interpreter.io_devices.FixedIO import FixedIO
+    from fjv.asm import quiet
+    root = wd / 'partial'
+    root.mkdir()
+    bits = [(b >> i) & 1 for b in b'OK' for i in range(8)] + [1, 0, 1]
+    src = root / 'partial.fj'
+    src.write_text(';code\nIO:\n;0\ncode:\n' + ''.join(f'IO+{b};\n' for b in bits) + 'end:\n;end\n')
+    out = root / 'partial.fjm'
+    got = {}
+    rc, so, se = cli([str(src), '--no_stl', '-s', '-o', str(out)])
+    stats['cli_runs'] += 1
+    got['fj one-step'] = (rc, so)
+    rc, so, se = cli(['--run', str(out), '-s'])
+    stats['cli_runs'] += 1
+    got['fj --run'] = (rc, so)
+    for name, fn in (('run', lambda: flipjump.run(out, io_device=dev, print_time=False, print_termination=False)),
+                     ('run_test_output', lambda: flipjump.run_test_output(out, b'', b'OK', should_raise_assertion_error=False, print_time=False, print_termination=False)),
+                     ('assemble_and_run_test_output', lambda: flipjump.assemble_and_run_test_output([src], b'', b'OK', use_stl=False, should_raise_assertion_error=False,
+                                                                                                  print_time=False, print_termination=False))):
+        dev = FixedIO(b'')
+        try:
+            with quiet():
+                r = fn()
+            got[name] = (0, dev.get_output(allow_incomplete_output=True)) if name == 'run' else (0, b'OK' if r else b'<returned False>')
+        except Exception as e:  # noqa
+            got[name] = (1, f'{type(e).__name__}: {str(e)[:80]}'.encode())
+    stats['configs'] += 1
+    if any(v != (0, b'OK') for v in got.values()):
+        sieve.add({'kind': 'a program whose output ends inside a byte is not handled alike by the routes', 'class': 'partial output byte',
+                   'case': {'program': src.read_text()}, 'expected': {k: 'OK' for k in got}, 'observed': {k: [v[0], v[1].decode('latin1')] for k, v in got.items()},
+                   'summary': 'output "OK" + 3 bits: ' + str({k: (v[0], v[1].decode('latin1')) for k, v in got.items() if v != (0, b'OK')})})
+
+
 def check_werror(wd, sieve, stats):
     """a program that raises an assembler warning: with --werror every route refuses it, without it every route accepts it -
     whatever the other options (-s, -w, -v) are."""
@@ -440,8 +478,8 @@ def work(task):
     sieve = Sieve(PROP)
     stats = {'configs': 0, 'cli_runs': 0}
     wd = scratch()
-    if kind in ('defaults', 'default-device', 'paths', 'werror'):
-        {'defaults': check_defaults, 'default-device': check_default_device, 'paths': check_path_spellings, 'werror': check_werror}[kind](wd, sieve, stats)
+    if kind in ('defaults', 'default-device', 'paths', 'werror', 'partial'):
+        {'defaults': check_defaults, 'default-device': check_default_device, 'paths': check_path_spellings, 'werror': check_werror, 'partial': check_partial_output}[kind](wd, sieve, stats)
         return stats, sieve.result(), None
     sample = None
     api_user_history(part, wd)
@@ -479,7 +517,7 @@ def main():
     if args.replay:
         return replay(args)
     run = Run(PROP, 'exploration', args)
-    tasks = [(k, args.tier, 0, 1) for k in ('defaults', 'default-device', 'paths', 'werror')] + [('cfg', args.tier, p, 32) for p in range(32)]
+    tasks = [(k, args.tier, 0, 1) for k in ('defaults', 'default-device', 'paths', 'werror', 'partial')] + [('cfg', args.tier, p, 32) for p in range(32)]
     total, samples = {}, []
     for stats, res, sample in pmap(work, tasks, args.jobs):
         for k, v in stats.items():
